@@ -32,15 +32,51 @@ def describe(tier):
         "tree: its child list == children of scan_node(Node(same type, same value), remaining depth) on a fresh scanner with the same, "
         "uninstrumented registry, where remaining depth = k - (level of the search that produced the node) - 1. Because the second scan "
         "sees only (type, value, depth), equality for every embedding also establishes that surroundings and position have no influence. "
-        "Non-trivial = a decoded node with a non-empty child list (distinct by (type, value, children)).",
+        "Inputs with 3 to 5000 (32 771) encoded blobs: first, second, middle and last decoded node compared the same way. Non-trivial = a decoded node with a non-empty child list (distinct by (type, value, children)).",
         "bounds": BOUNDS[tier],
         "assumptions": ["scans that raise or hang are counted and left to C01", "decoders are pure (C09)"],
         "exhaustive": True,
     }
 
 
+MANY = {"quick": (1, 2, 100, 1023, 1024, 1025, 4095, 4096, 4097, 5000), "thorough": (1, 2, 100, 1023, 1024, 1025, 4095, 4096, 4097, 5000, 8192, 16385, 32769)}
+
+
 def plan(tier, seed):
-    return [(tier,) + u for u in ep.plan(BOUNDS[tier])]
+    return [(tier,) + u for u in ep.plan(BOUNDS[tier])] + [(tier, "many", n) for n in MANY[tier]]
+
+
+def run_many(rec, n):
+    """n encoded blobs in one input: the first, the middle and the last decoded node must all equal an isolated scan of their value."""
+    from multidecoder.registry import get_analyzers
+
+    reg = get_analyzers(include=["hex", "network", "filename"])
+    blob = b"http://evil.example.com/payload.exe ".hex().encode()
+    filler = [("%020d" % i).encode().hex().encode() for i in range(n)]
+    data = blob + b" " + b" ".join(filler) + b" " + blob
+    w = {"engine": "many", "n": n}
+    rec.count("evaluations")
+    rec.mark("states", 0, True)
+    ok, res = rec.guard(TOTAL, w, n, trees.iscan, reg, data, 10, limit=120)
+    if not ok:
+        return
+    tree, log = res
+    rec.count("traces")
+    rec.count("transitions", len(log.hits))
+    rec.mark("nontrivial", 0, True)
+    decoded = [c for c in tree.children if c.obfuscation == "decoded.hexadecimal"]
+    if len(decoded) != n + 2:
+        rec.violation("C08.children-equal-isolated-scan", "many|blob-count", w, f"{n + 2} hex blobs in the input, {len(decoded)} decoded nodes", n)
+        return
+    for idx in sorted({0, 1, len(decoded) // 2, len(decoded) - 2, len(decoded) - 1}):
+        node = decoded[idx]
+        exp = Multidecoder(reg).scan_node(Node(node.type, node.value), 9)
+        got = tuple(trees.tup(c) for c in node.children)
+        want = tuple(trees.tup(c) for c in exp.children)
+        if got != want:
+            rec.violation("C08.children-equal-isolated-scan", "many|position-dependent", w,
+                          f"decoded node #{idx} of {len(decoded)} in one scan has children {core.short(got, 120)}; an isolated scan of its value gives {core.short(want, 120)}", n)
+    rec.sample({"engine": "many", "blobs": n + 2, "input_bytes": len(data)})
 
 
 def check(rec, tree, log, registry, k, w, size):
@@ -86,8 +122,14 @@ def on_case(rec, case):
 
 
 def run_unit(unit, rec):
+    if unit[1] == "many":
+        run_many(rec, unit[2])
+        return
     ep.run_unit(unit[1:], rec, BOUNDS[unit[0]], TOTAL, on_run, on_case)
 
 
 def replay(w, rec):
+    if w.get("engine") == "many":
+        run_many(rec, w["n"])
+        return
     ep.replay(w, rec, TOTAL, on_run, on_case)
